@@ -25,13 +25,13 @@ main.main()
 	/home/u/src/proj/main.go:8 +0x25
 
 goroutine 6 [chan receive, 3 minutes]:
-main.worker(0xc000012348, {0x1, 0x2, ...})
+main.worker(0xc000012348, {0x1, 0x2, ...}, ...)
 	/home/u/src/proj/worker.go:33 +0x45
 created by main.main in goroutine 1
 	/home/u/src/proj/main.go:7 +0x1a
 
 goroutine 7 [chan receive, 5 minutes]:
-main.worker(0xc000012350, {0x1, 0x2, ...})
+main.worker(0xc000012350, {0x1, 0x2, ...}, ...)
 	/home/u/src/proj/worker.go:33 +0x45
 created by main.main in goroutine 1
 	/home/u/src/proj/main.go:7 +0x1a
@@ -89,10 +89,25 @@ func main() {
 	}
 	opts := &stack.Opts{NameArguments: true} // shared by every goroutine
 	shared := scan(opts)
+	// what source analysis leaves behind: pre-rendered arguments in a slice with spare capacity
+	for _, g := range shared.Goroutines {
+		for i := range g.Stack.Calls {
+			a := &g.Stack.Calls[i].Args
+			if len(a.Values) != 0 {
+				p := make([]string, 0, len(a.Values)+4)
+				for k := range a.Values {
+					p = append(p, fmt.Sprintf("arg%d", k))
+				}
+				a.Processed = p
+			}
+		}
+	}
 	levels := []stack.Similarity{stack.ExactFlags, stack.ExactLines, stack.AnyPointer, stack.AnyValue}
 	want := map[stack.Similarity]string{}
+	wantPriv := map[stack.Similarity]string{}
 	for _, l := range levels {
-		want[l] = render(scan(opts), l)
+		want[l] = render(shared, l)
+		wantPriv[l] = render(scan(opts), l)
 	}
 	var wg sync.WaitGroup
 	bad := make(chan string, 64)
@@ -103,11 +118,11 @@ func main() {
 			defer wg.Done()
 			for k := 0; time.Now().Before(deadline); k++ {
 				l := levels[(w+k)%4]
-				s := shared
+				s, w0 := shared, want[l]
 				if k%3 == 0 {
-					s = scan(opts) // private snapshot, shared options
+					s, w0 = scan(opts), wantPriv[l] // private snapshot, shared options
 				}
-				if got := render(s, l); got != want[l] {
+				if got := render(s, l); got != w0 {
 					select {
 					case bad <- fmt.Sprintf("worker %d level %d", w, l):
 					default:
